@@ -57,6 +57,13 @@ type kind struct {
 	addrs  func(c claim) (chain string, ext []string, bech []string)
 	effect func(c claim) string // canonical text of the effect-relevant fields
 	fields []field
+	nums   []numField // unsigned integer fields (for digit re-splits between two of them)
+}
+
+type numField struct {
+	name string
+	get  func(c claim) uint64
+	set  func(c claim, v uint64)
 }
 
 type gen struct {
@@ -619,7 +626,63 @@ func kinds() []*kind {
 			}},
 			{"BridgerAddress", false, func(g *gen, c claim, ch string) { m := c.(*ct.MsgOracleSetUpdatedClaim); m.BridgerAddress = g.bech() }},
 		}}
+	stf.nums = []numField{
+		{"EventNonce", func(c claim) uint64 { return c.(*ct.MsgSendToFxClaim).EventNonce }, func(c claim, v uint64) { c.(*ct.MsgSendToFxClaim).EventNonce = v }},
+		{"BlockHeight", func(c claim) uint64 { return c.(*ct.MsgSendToFxClaim).BlockHeight }, func(c claim, v uint64) { c.(*ct.MsgSendToFxClaim).BlockHeight = v }},
+	}
+	bc.nums = []numField{
+		{"EventNonce", func(c claim) uint64 { return c.(*ct.MsgBridgeCallClaim).EventNonce }, func(c claim, v uint64) { c.(*ct.MsgBridgeCallClaim).EventNonce = v }},
+		{"BlockHeight", func(c claim) uint64 { return c.(*ct.MsgBridgeCallClaim).BlockHeight }, func(c claim, v uint64) { c.(*ct.MsgBridgeCallClaim).BlockHeight = v }},
+	}
+	bcr.nums = []numField{
+		{"EventNonce", func(c claim) uint64 { return c.(*ct.MsgBridgeCallResultClaim).EventNonce }, func(c claim, v uint64) { c.(*ct.MsgBridgeCallResultClaim).EventNonce = v }},
+		{"BlockHeight", func(c claim) uint64 { return c.(*ct.MsgBridgeCallResultClaim).BlockHeight }, func(c claim, v uint64) { c.(*ct.MsgBridgeCallResultClaim).BlockHeight = v }},
+		{"Nonce", func(c claim) uint64 { return c.(*ct.MsgBridgeCallResultClaim).Nonce }, func(c claim, v uint64) { c.(*ct.MsgBridgeCallResultClaim).Nonce = v }},
+	}
+	ste.nums = []numField{
+		{"EventNonce", func(c claim) uint64 { return c.(*ct.MsgSendToExternalClaim).EventNonce }, func(c claim, v uint64) { c.(*ct.MsgSendToExternalClaim).EventNonce = v }},
+		{"BlockHeight", func(c claim) uint64 { return c.(*ct.MsgSendToExternalClaim).BlockHeight }, func(c claim, v uint64) { c.(*ct.MsgSendToExternalClaim).BlockHeight = v }},
+		{"BatchNonce", func(c claim) uint64 { return c.(*ct.MsgSendToExternalClaim).BatchNonce }, func(c claim, v uint64) { c.(*ct.MsgSendToExternalClaim).BatchNonce = v }},
+	}
+	bt.nums = []numField{
+		{"EventNonce", func(c claim) uint64 { return c.(*ct.MsgBridgeTokenClaim).EventNonce }, func(c claim, v uint64) { c.(*ct.MsgBridgeTokenClaim).EventNonce = v }},
+		{"BlockHeight", func(c claim) uint64 { return c.(*ct.MsgBridgeTokenClaim).BlockHeight }, func(c claim, v uint64) { c.(*ct.MsgBridgeTokenClaim).BlockHeight = v }},
+		{"Decimals", func(c claim) uint64 { return c.(*ct.MsgBridgeTokenClaim).Decimals }, func(c claim, v uint64) { c.(*ct.MsgBridgeTokenClaim).Decimals = v }},
+	}
+	osu.nums = []numField{
+		{"EventNonce", func(c claim) uint64 { return c.(*ct.MsgOracleSetUpdatedClaim).EventNonce }, func(c claim, v uint64) { c.(*ct.MsgOracleSetUpdatedClaim).EventNonce = v }},
+		{"BlockHeight", func(c claim) uint64 { return c.(*ct.MsgOracleSetUpdatedClaim).BlockHeight }, func(c claim, v uint64) { c.(*ct.MsgOracleSetUpdatedClaim).BlockHeight = v }},
+		{"OracleSetNonce", func(c claim) uint64 { return c.(*ct.MsgOracleSetUpdatedClaim).OracleSetNonce }, func(c claim, v uint64) { c.(*ct.MsgOracleSetUpdatedClaim).OracleSetNonce = v }},
+	}
 	return []*kind{stf, bc, bcr, ste, bt, osu}
+}
+
+// resplit moves one decimal digit from the front of numeric field j to the end of numeric field i: the concatenation of
+// the two renderings stays the same ("1"+"23" vs "12"+"3") — collides iff the two are printed without a separator
+func (r *run) resplit(g *gen, k *kind, base claim) {
+	for i := range k.nums {
+		for j := range k.nums {
+			if i == j {
+				continue
+			}
+			a := k.clone(base)
+			x := uint64(1 + g.rng.Intn(99))
+			y := uint64(10 + g.rng.Intn(990))
+			k.nums[i].set(a, x)
+			k.nums[j].set(a, y)
+			ys := fmt.Sprint(y)
+			var x2, y2 uint64
+			fmt.Sscan(fmt.Sprint(x)+ys[:1], &x2)
+			fmt.Sscan(ys[1:], &y2)
+			if fmt.Sprint(y2) != ys[1:] || y2 == 0 {
+				continue // leading zero: not the same digit string
+			}
+			b := k.clone(base)
+			k.nums[i].set(b, x2)
+			k.nums[j].set(b, y2)
+			r.pair(k, "the split of "+k.nums[i].name+"/"+k.nums[j].name, a, b)
+		}
+	}
 }
 
 // ---------------------------------------------------------------------------------------------------------
@@ -751,6 +814,9 @@ func TestC03(t *testing.T) {
 			}
 			// adjacent-field re-splits and malformed variants
 			r.adversarial(g, k, base, ch)
+			if i%4 == 0 {
+				r.resplit(g, k, base)
+			}
 		}
 	}
 	out.Stats.Extra["claim_types"] = len(ks)
